@@ -41,6 +41,13 @@ class C11(SCheck):
                 ln = pos
             else:
                 ln, runs = gen.sparse_layout(r, max_apparent=256 << 20, max_runs=8)
+                if r.random() < 0.5:
+                    # data runs of very different lengths (a long one followed by short ones)
+                    for j, x in enumerate(runs):
+                        room = (runs[j + 1][0] if j + 1 < len(runs) else ln) - x[0] - (1 << 20)
+                        want = 4096 * r.choice([1, 1, 3, 17, 40])
+                        if room >= want:
+                            x[1] = max(x[1], want) if j % 2 == 0 else x[1]
             ops.append(gen.f_op("src/s%d" % i, ln, runs=runs, mode=0o644))
             if r.random() < 0.3 and ln <= (8 << 20):
                 # previous destination fully allocated
@@ -52,6 +59,9 @@ class C11(SCheck):
             kernel["fiemap_round_eof"] = True
         if r.random() < 0.3:
             kernel["fiemap_flagbits"] = r.choice(gen.FIEMAP_FLAGBITS)
+        if r.random() < 0.3:
+            # the in-kernel copy is unavailable: the user-space read/write fallback must keep the holes as well
+            kernel["cfr"] = r.choice(["ENOSYS", "EXDEV", "EPERM"])
         flags = {}
         if r.random() < 0.2:
             flags["no_progress"] = True
